@@ -706,6 +706,21 @@ def _correspond(ctx):
             co.add("result.keywords", f"sel {kind} {ch or '-'} {ser_fix(list(kws.items()))} {src.text}",
                    impl(lambda: out_res(call_kind(res, kind, channel=ch, **kws))), TOLSEL, desc={"kw": {k: str(v) for k, v in kws.items()}, "channel": ch, "kind": kind})
             co.note("keyword selection, %d fixed of %d dims%s" % (len(kws), len(res.data.dims), ", with channel" if ch else ""))
+        # a *list* of incidence angles (active results): each value is 4 pi cos(theta) x the intensity at its own angle
+        if s.mode == "A":
+            th = [v.item() if hasattr(v, "item") else v for v in res.data["theta_inc"].values]
+            k = int(rng.integers(1, len(th) + 1))
+            pick = [th[int(j)] for j in rng.permutation(len(th))[:k]]
+            kws = {}
+            for d in res.data.dims:
+                if d not in ("theta", "theta_inc") and rng.random() < 0.3:
+                    v = res.data[d].values[int(rng.integers(0, res.data.sizes[d]))]
+                    kws[d] = v.item() if hasattr(v, "item") else v
+            kind = kinds[int(rng.integers(0, len(kinds)))]
+            co.add("result.theta-list", f"sellist {kind} {len(pick)} " + " ".join(ctok(t) for t in pick) + f" {ser_fix(list(kws.items()))} {src.text}",
+                   impl(lambda: out_res(call_kind(res, kind, theta=list(pick), **kws))), TOLSEL,
+                   desc={"theta": [str(t) for t in pick], "kw": {k_: str(v) for k_, v in kws.items()}, "kind": kind})
+            co.note("list of %d incidence angles of %d" % (len(pick), len(th)))
         co.note(f"generic sensor mode {s.mode}, {nextra} extra dims")
 
     # --- concatenation (same sensor / different sensors), then selection by channel and along the new dimension
